@@ -263,6 +263,32 @@ func (env *AbsEnv) EvalCond(e ast.Expr) (condVal, bool) {
 				return condVal{Var: a.Var, Set: a.Set.Union(b.Set)}, true
 			}
 		case token.EQL, token.NEQ, token.LSS, token.LEQ, token.GTR, token.GEQ:
+			// <var> / c  op  k   (non-negative domain: the caller intersects with its domain)
+			if q, ok := ast.Unparen(x.X).(*ast.BinaryExpr); ok && q.Op == token.QUO {
+				if v := env.IsVar(q.X); v != "" {
+					c, okC := ConstInt(env.Info, q.Y)
+					k, okK := ConstInt(env.Info, x.Y)
+					if okC && okK && c > 0 && k >= 0 {
+						eq := IvSet{{k * c, k*c + c - 1}}
+						var s IvSet
+						switch x.Op {
+						case token.EQL:
+							s = eq
+						case token.NEQ:
+							s = IvSet{{0, ivInf}}.Minus(eq)
+						case token.LSS:
+							s = NewIvSet(Iv{0, k*c - 1})
+						case token.LEQ:
+							s = IvSet{{0, k*c + c - 1}}
+						case token.GTR:
+							s = IvSet{{k*c + c, ivInf}}
+						case token.GEQ:
+							s = IvSet{{k * c, ivInf}}
+						}
+						return condVal{Var: v, Set: s}, true
+					}
+				}
+			}
 			lv, lIsVar, lc, lIsC := env.operand(x.X)
 			rv, rIsVar, rc, rIsC := env.operand(x.Y)
 			switch {
@@ -697,4 +723,20 @@ func (p Piece) Image() IvSet {
 		return IvSet{{p.Add, p.Add}}
 	}
 	return p.Dom.Shift(p.Add)
+}
+
+// CondSet evaluates cond for the single abstract variable "byte" over the given domain and
+// returns the subset of the domain on which it is true.
+func (env *AbsEnv) CondSet(e ast.Expr, domain IvSet) (IvSet, bool) {
+	v, ok := env.EvalCond(e)
+	if !ok {
+		return nil, false
+	}
+	if v.Known {
+		if v.Val {
+			return domain, true
+		}
+		return nil, true
+	}
+	return v.Set.Intersect(domain), true
 }
